@@ -109,12 +109,15 @@ class SuperNet(DNAS):
         :rtype: nn.Module
         """
         model = self.seed
-        seed_training = self.seed.training
+        # the conversion forces eval() on every module: remember the mode of each of them (a user
+        # may have frozen single layers, e.g. BatchNorm, with .eval())
+        seed_modes = [(m, m.training) for m in self.seed.modules()]
         # the conversion runs a forward pass of the seed in eval mode, which re-samples the
         # coefficients stored by every combiner: put back the ones the search was using
         thetas = [(m, m.theta_alpha) for m in self.seed.modules() if hasattr(m, 'theta_alpha')]
         model, _, _ = convert(model, self._input_example, 'export')
-        self.seed.train(seed_training)
+        for m, training in seed_modes:
+            m.training = training
         for m, t in thetas:
             m.theta_alpha = t
         return model
